@@ -170,6 +170,19 @@ def variants_layer(ctx, n=2):
                     L.same("variants (%s)" % suffix, argv, base, files=[mp, ap])
                     thr = rng.choice([0.0, 0.5])
                     L.same("variants --aggregate (%s)" % suffix, argv + ["--aggregate", "--threshold", repr(thr)], dict(base, aggregate=True, threshold=thr), files=[mp, ap])
+                    # the alignment on stdin: with -r (the reference is then the first record of the stream) and without
+                    # (the reference comes from the annotation and every record of the stream is a query)
+                    msa_first, _ = vcommon.build_msa(rng, ref_row, rows, refpos="first", style="plain")
+                    mfp = L.W("mf%d.fasta" % k, msa_first)
+                    a_first = ["variants", "--msa", mfp, "-r", "REF", "-a", ap] + (["--append-snps"] if append else []) + win
+                    L.equal_runs("variants: the alignment on stdin equals --msa FILE (-r given)", a_first, a_first[:1] + a_first[3:], stdin_b=msa_first, files=[mfp, ap])
+                    if True:
+                        _, rows_ni = anno.make_msa(rng, genome, rng.randint(2, 4), with_insertions=False)
+                        noref = gen.layout(rng, [("q%d" % i, r) for i, r in enumerate(rows_ni)], "plain")
+                        nrp = L.W("nr%d.fasta" % k, noref)
+                        for agg in ([], ["--aggregate"]):
+                            a_nr = ["variants", "--msa", nrp, "-a", ap] + (["--append-snps"] if append else []) + win + agg
+                            L.equal_runs("variants: the alignment on stdin equals --msa FILE (reference from the annotation)", a_nr, a_nr[:1] + a_nr[3:], stdin_b=noref, files=[nrp, ap])
                     if suffix == "gb":
                         L.equal_runs("variants: the legacy --genbank FILE equals --annotation FILE.gb", argv,
                                      ["variants", "--msa", mp, "-r", "REF", "--genbank", ap] + (["--append-snps"] if append else []) + win, files=[mp, ap])
@@ -248,6 +261,103 @@ def sam_layer(ctx, which, n=2):
                     argv = ["sam", "variants", "-s", sp, "-r", rp, "-a", ap] + (["--append-snps"] if append else []) + win
                     L.same("sam variants (%s)" % suffix, argv, base, files=[sp, rp, ap])
                     L.same("sam variants --aggregate (%s)" % suffix, argv + ["--aggregate"], dict(base, aggregate=True, threshold=0.0), files=[sp, rp, ap])
+        return L.runs
+    finally:
+        L.close()
+
+
+def annotation_text_layer(ctx):
+    """The text of a GFF3 annotation may be laid out differently without changing what it says: the ##FASTA sequence on
+    one line or wrapped, CRLF line ends, a long free-text attribute on a row, further attributes, attributes in another
+    order.  `variants` must print the same bytes for every such spelling (genome of 70,000 bases, two genes far apart)."""
+    L = Layer(ctx)
+    try:
+        if L.failed:
+            return 0
+        rng = ctx.rng
+        n = 70000
+        g = [rng.choice("ACGT") for _ in range(n)]
+        cds = "ATG" + "".join(rng.choice(["GCT", "AAA", "CTG", "GAT"]) for _ in range(5)) + "TAA"
+        a, b = 10, 69000
+        g[a - 1:a - 1 + len(cds)] = list(cds)
+        g[b - 1:b - 1 + len(cds)] = list(cds)
+        g = "".join(g)
+        q = list(g)
+        for p in (a + 4, b + 4, 35000):
+            q[p - 1] = {"A": "C", "C": "G", "G": "T", "T": "A"}[q[p - 1]]
+        msa = L.W("big.fasta", (">ref\n%s\n>q\n%s\n" % (g, "".join(q))).encode())
+        wrap = "\n".join(g[i:i + 60] for i in range(0, n, 60))
+        def gff(attr1="ID=c1;Name=gA", attr2="ID=c2;Name=gB", seq=wrap, eol="\n"):
+            rows = ["##gff-version 3", "##sequence-region ref 1 %d" % n,
+                    "\t".join(["ref", ".", "CDS", str(a), str(a + len(cds) - 1), ".", "+", "0", attr1]),
+                    "\t".join(["ref", ".", "CDS", str(b), str(b + len(cds) - 1), ".", "+", "0", attr2]),
+                    "##FASTA", ">ref", seq]
+            return (eol.join(rows) + eol).encode()
+        base = L.W("base.gff", gff())
+        variants = {
+            "the ##FASTA sequence on one line": gff(seq=g),
+            "CRLF line ends": gff(eol="\r\n"),
+            "a 70,000-character Note attribute on the first row": gff(attr1="ID=c1;Name=gA;Note=" + "x" * 70000),
+            "further attributes, Name before ID": gff(attr1="Name=gA;gbkey=CDS;ID=c1;product=p", attr2="Dbxref=X:1;Name=gB;ID=c2"),
+        }
+        for k, (what, data) in enumerate(variants.items()):
+            p = L.W("v%d.gff" % k, data)
+            for extra in ([["--append-snps"]] if k == 0 else [[]]):
+                L.equal_runs("variants with the same GFF3 annotation written differently (%s) must print the same" % what,
+                             ["variants", "--msa", msa, "-r", "ref", "-a", base] + extra,
+                             ["variants", "--msa", msa, "-r", "ref", "-a", p] + extra)
+            L.equal_runs("variants taking the reference from the same GFF3 annotation written differently (%s)" % what,
+                         ["variants", "--msa", msa, "-a", base], ["variants", "--msa", msa, "-a", p])
+        r = cm.run_binary(L.binp, ["variants", "--msa", msa, "-r", "ref", "-a", base], timeout=60)
+        if r[0] != "ok" or b"aa:gA:" not in r[2] or b"aa:gB:" not in r[2]:
+            cm.violation(ctx, "failing-input", {"what": "variants on the 70,000-base genome does not report the two amino-acid changes",
+                                                "out": r[2].decode("latin1")[:500], "err": r[3].decode("latin1")[-300:]})
+        return L.runs
+    finally:
+        L.close()
+
+
+def threshold_layer(ctx):
+    """--aggregate --threshold T through the built binary, for T equal to an occurring frequency k/10 (0.1, 0.2, 0.3, 0.6, 0.7
+    are not exactly representable; a flag parsed at lower precision moves them) and a few others: the binary's bytes must
+    be the library entry point's at the same float64 threshold, for snps, variants and sam variants."""
+    L = Layer(ctx)
+    rng = ctx.rng
+    try:
+        if L.failed:
+            return 0
+        Lg = 30
+        feats = []
+        while not feats:
+            genome = gen.rand_seq(rng, Lg)
+            feats = anno.random_features(rng, Lg, max_feats=2, mod3_segments=True)
+            genome, feats = anno.patch_stops(rng, genome, feats)
+        # ten queries; mutation j is carried by the first j of them: frequencies 0.1 .. 1.0
+        sites = rng.sample(range(Lg), 8)
+        carriers = [1, 2, 3, 5, 6, 7, 9, 10]
+        rows = []
+        for i in range(10):
+            t = list(genome)
+            for site, k in zip(sites, carriers):
+                if i < k:
+                    t[site] = {"A": "C", "C": "G", "G": "T", "T": "A"}[t[site]]
+            rows.append("".join(t))
+        msa = gen.layout(rng, [("REF", genome)] + [("s%d" % i, r) for i, r in enumerate(rows)], "plain")
+        aln = gen.layout(rng, [("s%d" % i, r) for i, r in enumerate(rows)], "plain")
+        refb = gen.layout(rng, [("REF", genome)], "plain")
+        samb = samgen.render_sam("REF", Lg, [{"name": "s%d" % i, "flag": 0, "pos": 0, "cigar": [("M", Lg)], "seq": r} for i, r in enumerate(rows)])
+        annob = anno.render_gff(genome, feats)
+        mp, alp, rp, sp, ap = L.W("m.fasta", msa), L.W("aln.fasta", aln), L.W("ref.fasta", refb), L.W("a.sam", samb), L.W("a.gff", annob)
+        for thr in (0.1, 0.2, 0.3, 0.5, 0.6, 0.7, 0.9, 0.05, 0.30000000000000004, 1.0):
+            t = repr(thr)
+            L.same("snps --aggregate --threshold %s" % t, ["snps", "-r", rp, "-q", alp, "--aggregate", "--threshold", t],
+                   {"op": "snps", "ref": cm.b64(refb), "aln": cm.b64(aln), "hard": False, "aggregate": True, "threshold": thr}, files=[rp, alp])
+            L.same("variants --aggregate --threshold %s" % t, ["variants", "--msa", mp, "-r", "REF", "-a", ap, "--aggregate", "--threshold", t],
+                   {"op": "variants", "msa": cm.b64(msa), "refid": "REF", "anno": cm.b64(annob), "suffix": "gff", "start": -1, "end": -1,
+                    "append_snps": False, "threads": 2, "aggregate": True, "threshold": thr}, files=[mp, ap])
+            L.same("sam variants --aggregate --threshold %s" % t, ["sam", "variants", "-s", sp, "-r", rp, "-a", ap, "--aggregate", "--threshold", t],
+                   {"op": "samvariants", "sam": cm.b64(samb), "ref": cm.b64(refb), "anno": cm.b64(annob), "suffix": "gff", "ref_from_file": True,
+                    "start": -1, "end": -1, "append_snps": False, "aggregate": True, "threshold": thr, "threads": 2}, files=[sp, rp, ap])
         return L.runs
     finally:
         L.close()
